@@ -85,6 +85,7 @@ fn run(ctx: &Ctx, out: &mut Out) {
     leg_bytes(ctx, out);
     leg_population(ctx, out);
     leg_jets(ctx, out);
+    leg_widths(ctx, out);
 }
 
 fn one(ctx: &Ctx, out: &mut Out, leg: &str, prog: &[u8], wit: &[u8], origin: &str) -> bool {
@@ -194,6 +195,37 @@ fn leg_population(ctx: &Ctx, out: &mut Out) {
                         }
                     }
                 }
+            }
+        }
+    }
+}
+
+/// one witness of every bit width (the roots hash the witness bits with a hand-rolled SHA-256 padding)
+fn leg_widths(ctx: &Ctx, out: &mut Out) {
+    use crate::props::c01::{width_host, width_values};
+    let leg = "witness-widths";
+    let fam = Fam::Elements;
+    let max = ctx.tier.pick(1100, 2100);
+    for bits in 1..=max {
+        if !ctx.mine() {
+            continue;
+        }
+        let (dag, w, t) = width_host(bits);
+        let Some(p) = Prog::new(&dag, fam) else {
+            out.violation("widths:host", leg, format!("{bits} bits"), "host does not type-check in the reference".into());
+            continue;
+        };
+        for v in width_values(&t) {
+            let mut wit = vec![None; dag.len()];
+            wit[w] = Some(v.clone());
+            let Ok(r) = p.to_redeem(&wit) else {
+                out.violation("widths:host", leg, format!("{bits} bits"), "host does not finalise".into());
+                continue;
+            };
+            let (pb, wb) = r.to_vec_with_witness();
+            let acc = one(ctx, out, leg, &pb, &wb, &format!(" [witness of {bits} bits]"));
+            if acc {
+                out.count("widths:accepted-by-both", 1);
             }
         }
     }
